@@ -174,6 +174,33 @@ Inductive reachable_g : state -> Prop :=
 | rg_init : reachable_g init
 | rg_step : forall s l s', reachable_g s -> g_label s l = true -> step s l = Some s' -> reachable_g s'.
 
+(* ---- the narrower progress guard: an upgrade push is allowed when no OTHER thread is currently an upgrader
+   (a thread with a blocking exclusive request pending while it holds the lock only shared).  Since 01dac8d a single
+   upgrader makes progress; only two simultaneous upgraders deadlock. *)
+Definition upgraderb (s : state) (t : tid) : bool :=
+  match stk s t with
+  | ExReq true _ :: rest => (0 <? cnt s t) && negb (has_ex rest)
+  | ExWait _ _ :: _ => 0 <? cnt s t
+  | _ => false
+  end.
+
+Definition g1_label (s : state) (l : label) : bool :=
+  match l with
+  | (t, APush (ExReq true _)) =>
+      (cnt s t =? 0) || has_ex (stk s t) || forallb (fun u => Nat.eqb u t || negb (upgraderb s u)) (seq 0 (length (stacks s)))
+  | _ => true
+  end.
+
+Inductive reachable_g1 : state -> Prop :=
+| rg1_init : reachable_g1 init
+| rg1_step : forall s l s', reachable_g1 s -> g1_label s l = true -> step s l = Some s' -> reachable_g1 s'.
+
+Fixpoint g1_run (s : state) (ls : list label) : bool :=
+  match ls with
+  | [] => true
+  | l :: tl => g1_label s l && match step s l with Some s' => g1_run s' tl | None => false end
+  end.
+
 (* running a schedule; None = some label was not enabled *)
 Fixpoint run (s : state) (ls : list label) : option state :=
   match ls with
